@@ -234,6 +234,7 @@ structure CompleteInv (G : Graph N) (root : N) (s : St N) : Prop where
   emitted : ∀ n ∈ s.done, ∀ o, G.target n = some o → o ∈ s.cands
   cands : ∀ o ∈ s.cands, o ∈ s.out.map Prod.fst
   visited : ∀ n ∈ s.visited, n ∈ s.done
+  nofail : ∀ n ∈ s.done, G.fails n = false
 
 theorem step_err_mono (G : Graph N) (lim i : Nat) (s : St N) (h : (step G lim i s).err = false) : s.err = false := by
   rcases step_cases G lim i s with he | ⟨it, _, hc⟩
@@ -258,7 +259,7 @@ theorem step_complete (G : Graph N) (root : N) (lim i : Nat) (s : St N)
         · left; rw [← hxm]; exact hdone
         · right; exact ⟨x, hx', hxm⟩
       rw [he]
-      refine ⟨?_, ?_, h.emitted, h.cands, h.visited⟩
+      refine ⟨?_, ?_, h.emitted, h.cands, h.visited, h.nofail⟩
       · rcases h.root with hr | hr
         · left; exact hr
         · exact fix _ hr
@@ -273,7 +274,17 @@ theorem step_complete (G : Graph N) (root : N) (lim i : Nat) (s : St N)
         rcases hsplit x hx with rfl | hx'
         · left; rw [← hxm]; simp
         · right; exact ⟨x, List.mem_append_left _ hx', hxm⟩
-      refine ⟨?_, ?_, ?_, ?_, ?_⟩
+      have hnf : G.fails it.node = false := by
+        rw [he] at hne
+        simp only [Bool.or_eq_false_iff] at hne
+        exact hne.2
+      refine ⟨?_, ?_, ?_, ?_, ?_, ?_⟩
+      rotate_left 5
+      · intro n hn
+        simp only at hn
+        rcases List.mem_cons.mp hn with rfl | hn
+        · exact hnf
+        · exact h.nofail n hn
       · rcases h.root with hr | hr
         · left; exact List.mem_cons_of_mem _ hr
         · exact fix _ hr
@@ -344,7 +355,7 @@ theorem run_complete (G : Graph N) (lim : Nat) (is : List Nat) (root : N)
     (hfin : (run G lim is (St.init root)).work = []) (hne : (run G lim is (St.init root)).err = false) :
     ∀ n, Reach G root n → ∀ o, G.target n = some o → o ∈ (run G lim is (St.init root)).out.map Prod.fst := by
   have inv := run_completeInv G root lim is (St.init root)
-    ⟨Or.inr ⟨{ node := root, flag := false, depth := 0 }, by simp [St.init], rfl⟩, by simp [St.init], by simp [St.init], by simp [St.init], by simp [St.init]⟩ hne
+    ⟨Or.inr ⟨{ node := root, flag := false, depth := 0 }, by simp [St.init], rfl⟩, by simp [St.init], by simp [St.init], by simp [St.init], by simp [St.init], by simp [St.init]⟩ hne
   have hdone : ∀ n, Reach G root n → n ∈ (run G lim is (St.init root)).done := by
     intro n hr
     induction hr with
@@ -358,5 +369,23 @@ theorem run_complete (G : Graph N) (lim : Nat) (is : List Nat) (root : N)
       · rw [hfin] at hit; cases hit
   intro n hr o ho
   exact inv.cands o (inv.emitted n (hdone n hr) o ho)
+
+/-- … and no reachable node failed to expand -/
+theorem run_nofail (G : Graph N) (lim : Nat) (is : List Nat) (root : N)
+    (hfin : (run G lim is (St.init root)).work = []) (hne : (run G lim is (St.init root)).err = false) :
+    ∀ n, Reach G root n → G.fails n = false := by
+  have inv := run_completeInv G root lim is (St.init root)
+    ⟨Or.inr ⟨{ node := root, flag := false, depth := 0 }, by simp [St.init], rfl⟩, by simp [St.init], by simp [St.init], by simp [St.init], by simp [St.init], by simp [St.init]⟩ hne
+  intro n hr
+  apply inv.nofail
+  induction hr with
+  | refl =>
+    rcases inv.root with h | ⟨it, hit, _⟩
+    · exact h
+    · rw [hfin] at hit; cases hit
+  | step _ hp ih =>
+    rcases inv.closed _ ih _ hp with h | ⟨it, hit, _⟩
+    · exact h
+    · rw [hfin] at hit; cases hit
 
 end OpenFGAVerif.RevExpand
